@@ -72,6 +72,7 @@ ALPHABET = MUTATORS + QUERIES
 M = Monitor(
     pid="C14",
     setup=_setup,
+    exhaustive_claim="every history of length <= 2 over the 36-symbol alphabet (quick and thorough) and every mutator-only history of length 3 (thorough), from a registered start state, with arguments from fixed pools",
     title="Estimator answers depend only on what is currently registered; queries are pure",
     rule=("histories over the alphabet {register_system(2 source sets x given/default bounds), register_bounds(3), "
           "register_adaptation(scalar/vector/matrix), register_baseline(3), register_background_adaptation(add F/T), "
